@@ -47,6 +47,7 @@ def gen_cases(tier, seed):
                 "in_memory": i % 9 == 0,
             }
         )
+    cases += [{"kind": "grid-clip", "profile": "grid-clip"} for _ in range(12 if tier == "quick" else 120)]
     return cases
 
 
@@ -96,7 +97,74 @@ class C01Monitor(hist.Monitor):
             rec.nontrivial = True
 
 
+def run_grid_clip(case, rec):
+    """Scripted: a rotated 2-D grid with cell data of several kinds is clipped by an axis-aligned box that cuts through it (the
+    copy keeps a block of rows and columns, the cells of that block that lie outside the box are blanked); what the session
+    shows of source and copy before the close is what a later reader gets."""
+    import os
+    import shutil
+    import tempfile
+
+    import numpy as np
+    from geoh5py.objects import Grid2D
+    from geoh5py.workspace import Workspace
+
+    rng = random.Random(case["seed"])
+    d = tempfile.mkdtemp(prefix="gvm_c01g_")
+    path = os.path.join(d, "g.geoh5")
+    ws = None
+    try:
+        ws = Workspace.create(path)
+        nu, nv = rng.randint(4, 7), rng.randint(4, 7)
+        grid = Grid2D.create(ws, origin=[0.0, 0.0, 0.0], u_cell_size=1.0, v_cell_size=1.0, u_count=nu, v_count=nv, rotation=rng.choice([30.0, 45.0, 60.0, -30.0]), name="rotated")
+        n = nu * nv
+        grid.add_data({"f": {"values": np.arange(n, dtype=float) + 0.5},
+                       "i": {"values": np.arange(n, dtype="int32") + 1, "type": "integer"},
+                       "r": {"values": (np.arange(n) % 3 + 1).astype("int32"), "type": "referenced", "value_map": {1: "a", 2: "b", 3: "c"}}})
+        if case["seed"] % 2:
+            ws.close()
+            ws = Workspace(path, mode="r+")
+            grid = ws.get_entity("rotated")[0]
+            rec.see("grid-clips:source-reloaded")
+        cent = np.asarray(grid.centroids)
+        lo, hi = cent[:, :2].min(axis=0), cent[:, :2].max(axis=0)
+        mid = (lo + hi) / 2.0
+        box = np.array([[lo[0] - 1.0, mid[1] - 0.25 * (hi[1] - lo[1])], [mid[0] + 0.1 * (hi[0] - lo[0]), hi[1] + 1.0]])
+        new = grid.copy_from_extent(box, inverse=bool(case["seed"] % 3 == 0))
+        rec.see("grid-clips")
+        if new is None:
+            rec.see("grid-clips:none")
+            rec.nontrivial = True
+            rec.shape = ["grid-clip", "none"]
+            return
+        blanked = sum(int(np.isnan(np.asarray(c.values, dtype=float)).any()) for c in new.children if getattr(c, "values", None) is not None and c.name == "f")
+        rec.see("grid-clips:with-blanked-cells" if blanked else "grid-clips:nothing-blanked")
+        live = snap.api_snapshot(ws)
+        new = grid = None
+        ws.close()
+        fresh = Workspace(path, mode="r")
+        try:
+            reopened = snap.api_snapshot(fresh)
+        finally:
+            fresh.close()
+        hist.diff_snapshots(rec, PROP, "C01.live-vs-reopen", live, reopened, "close")
+        rec.see("closes-validated")
+        rec.nontrivial = True
+        rec.shape = ["grid-clip", nu, nv, bool(blanked)]
+        rec.sample = {"lane": "grid-clip", "cells": n, "blanked": bool(blanked)}
+    finally:
+        try:
+            if ws is not None:
+                ws.close()
+        except Exception:  # noqa: BLE001
+            pass
+        shutil.rmtree(d, ignore_errors=True)
+        gc.collect()
+
+
 def run_case(case, rec):
+    if case.get("kind") == "grid-clip":
+        return run_grid_clip(case, rec)
     rng = random.Random(case["seed"])
     eng = hist.Engine(
         rec,
